@@ -69,6 +69,8 @@ def forked(fn, *args, timeout=180):
             # SIGALRM's default action ends this child; no watchdog thread
             # (a thread would make the forks below unsafe)
             signal.alarm(int(timeout))
+            # some parsers of the library print to stdout; results travel by pipe
+            sys.stdout = open(os.devnull, "w")
             try:
                 msg = ("ok", fn(*args))
             except BaseException:  # noqa: BLE001 - reported to the parent
